@@ -23,3 +23,222 @@ Proof. exact ArcHeap.C19_get_mut_refuted. Qed.
 Example C19_example : outs_s heap0 [HNew 0; HAdd 0 1%N; HClone 0 1; HAdd 0 7%N; HAdd 1 9%N; HRead 0; HRead 1]
   = [HNone; HNone; HNone; HNone; HNone; HVal [1;7]%N; HVal [1;9]%N].
 Proof. vm_compute. reflexivity. Qed.
+
+(* ================================================================================================================
+   The value-type API (Codec/ValueApi.v: one model function per public constructor / accessor / conversion, `VPanic` at
+   every Rust site that can panic).  Statements only; proofs in Proofs/ValueApiProofs.v.  The same functions are run
+   against the implementation by the suite `valueapi` (records `C V`). *)
+From Rustun Require Import Base.Tlv Crypto.Sha256 Codec.AttrValue Codec.MsgType Codec.Message Codec.ValueApi Proofs.ValueApiProofs.
+Open Scope N_scope.
+
+(* ---- message.rs: MessageType::from(u16) never reaches one of its three unwraps, ignores the two top bits, and is the
+   inverse of as_u16 on all 4096 x 4 pairs *)
+Theorem C19_no_panic_msgtype_from : forall v, va_msgtype_from v <> VPanic.
+Proof. exact va_msgtype_from_np. Qed.
+Print Assumptions C19_no_panic_msgtype_from.
+Theorem C19_msgtype_from_mask : forall v, va_msgtype_from v = va_msgtype_from (N.land v 0x3FFF).
+Proof. exact va_msgtype_from_mask. Qed.
+Print Assumptions C19_msgtype_from_mask.
+Theorem C19_msgtype_from_spec : forall v, exists m c, va_msgtype_from v = VOk (m, c) /\ m < 4096 /\ c < 4 /\
+  va_msgtype_as_u16 m c = N.land v 0x3FFF /\ of_u16 v = (m, c).
+Proof. exact va_msgtype_from_spec. Qed.
+Print Assumptions C19_msgtype_from_spec.
+Theorem C19_msgtype_roundtrip : forall m c, m < 4096 -> c < 4 -> va_msgtype_from (va_msgtype_as_u16 m c) = VOk (m, c).
+Proof. exact va_msgtype_roundtrip. Qed.
+Print Assumptions C19_msgtype_roundtrip.
+Theorem C19_no_panic_msgtype_from_bytes : forall b, len b = 2 -> va_msgtype_from_bytes b <> VPanic.
+Proof. exact va_msgtype_from_bytes_np. Qed.
+Print Assumptions C19_no_panic_msgtype_from_bytes.
+Theorem C19_method_try_from : forall v, v < 65536 -> va_method_try_from v = if v <? 4096 then VOk v else VErr.
+Proof. exact va_method_try_from_spec. Qed.
+Print Assumptions C19_method_try_from.
+Theorem C19_class_try_from : forall v, va_class_try_from v = if v <=? 3 then VOk v else VErr.
+Proof. exact va_class_try_from_spec. Qed.
+Print Assumptions C19_class_try_from.
+Theorem C19_family_try_from : forall v,
+  (va_family_try_from v = VOk v /\ (v = 1 \/ v = 2)) \/ (va_family_try_from v = VErr /\ v <> 1 /\ v <> 2).
+Proof. exact va_family_try_from_spec. Qed.
+Print Assumptions C19_family_try_from.
+(* every function of the numeric sweeps (MessageType, MessageMethod, MessageClass, AddressFamily, AlgorithmId, ErrorCode,
+   IcmpType, IcmpCode, AttributeType, ChangeRequest, padding, the TURN integer types), for every function number and argument *)
+Theorem C19_no_panic_numeric : forall fn v, va_num_case fn v <> VPanic.
+Proof. exact va_num_case_np. Qed.
+Print Assumptions C19_no_panic_numeric.
+
+(* ---- types.rs: ErrorCode::new accepts exactly 300..699 (everything else is an Err, not a panic); on every value it
+   builds, class() and number() return without panicking and class * 100 + number = code *)
+Theorem C19_error_code_new_accepts : forall code reason, va_error_code_new code reason = VOk (code, reason) <-> 300 <= code < 700.
+Proof. exact va_error_code_new_accepts. Qed.
+Print Assumptions C19_error_code_new_accepts.
+Theorem C19_error_code_new_rejects : forall code reason, code < 300 \/ 700 <= code -> va_error_code_new code reason = VErr.
+Proof. exact va_error_code_new_rejects. Qed.
+Print Assumptions C19_error_code_new_rejects.
+Theorem C19_error_code_accessors : forall code, 300 <= code < 700 ->
+  va_ec_number code = VOk (code mod 100) /\ va_ec_class code = VOk (code / 100) /\ (code / 100) * 100 + code mod 100 = code /\
+  3 <= code / 100 <= 6 /\ code mod 100 <= 99.
+Proof. exact va_ec_accessors. Qed.
+Print Assumptions C19_error_code_accessors.
+Theorem C19_no_panic_error_code : forall code reason, va_error_code_view code reason <> VPanic.
+Proof. exact va_error_code_view_np. Qed.
+Print Assumptions C19_no_panic_error_code.
+(* agreement with the codec model: the bytes ERROR-CODE is encoded with are these accessor values; the decoder only builds
+   values the constructor accepts *)
+Theorem C19_error_code_encodes : forall code reason room c n, 300 <= code < 700 -> len reason <= 509 -> 4 + len reason <= room ->
+  va_ec_class code = VOk c -> va_ec_number code = VOk n -> av_enc_error_code code reason room = VOk ([0; 0; c; n] ++ reason).
+Proof. exact va_error_code_encodes. Qed.
+Print Assumptions C19_error_code_encodes.
+Theorem C19_error_code_decoded : forall raw code reason,
+  av_dec_error_code raw = VOk (code, reason) -> va_error_code_new code reason = VOk (code, reason).
+Proof. exact va_error_code_decoded. Qed.
+Print Assumptions C19_error_code_decoded.
+
+(* ---- bounded integers, ChangeRequest, padding *)
+Theorem C19_icmp_type_new : forall v, va_icmp_type_new v = if v <=? 127 then VOk v else VErr.
+Proof. exact va_icmp_type_new_spec. Qed.
+Print Assumptions C19_icmp_type_new.
+Theorem C19_icmp_code_new : forall v, va_icmp_code_new v = if v <=? 511 then VOk v else VErr.
+Proof. exact va_icmp_code_new_spec. Qed.
+Print Assumptions C19_icmp_code_new.
+Theorem C19_icmp_wf : forall t c d, av_wf 0x8004 (AvIcmp t c d) = true -> va_icmp_type_new t = VOk t /\ va_icmp_code_new c = VOk c.
+Proof. exact va_icmp_wf. Qed.
+Print Assumptions C19_icmp_wf.
+Theorem C19_algid_roundtrip : forall v, va_algid_to (va_algid_from v) = v.
+Proof. exact va_algid_roundtrip. Qed.
+Print Assumptions C19_algid_roundtrip.
+Theorem C19_change_request_roundtrip : forall b, b = 0 \/ b = 2 \/ b = 4 \/ b = 6 ->
+  va_change_request_flags (va_change_request_new (Some b)) = b.
+Proof. exact va_change_request_roundtrip. Qed.
+Print Assumptions C19_change_request_roundtrip.
+Theorem C19_padding : forall n, va_padding n = VOk (pad n).
+Proof. exact va_padding_spec. Qed.
+Print Assumptions C19_padding.
+
+(* ---- fixed-size values: the array conversions accept exactly the documented length; Fingerprint::from([u8; 4]) never
+   reaches its `expect` (which a shorter slice would reach); the stored values are the ones the codec decodes *)
+Theorem C19_array_from_slice_exact : forall n b, va_array_from_slice n b = VOk b <-> len b = n.
+Proof. exact va_array_from_slice_exact. Qed.
+Print Assumptions C19_array_from_slice_exact.
+Theorem C19_array_from_slice_other : forall n b, len b <> n -> va_array_from_slice n b = VErr.
+Proof. exact va_array_from_slice_other. Qed.
+Print Assumptions C19_array_from_slice_other.
+Theorem C19_no_panic_fingerprint_from : forall b, len b = 4 -> va_fingerprint_from b <> VPanic.
+Proof. exact va_fingerprint_from_np. Qed.
+Print Assumptions C19_no_panic_fingerprint_from.
+Theorem C19_fingerprint_from_short : forall b, len b < 4 -> va_fingerprint_from b = VPanic.
+Proof. exact va_fingerprint_from_short. Qed.
+Print Assumptions C19_fingerprint_from_short.
+Theorem C19_fingerprint_codec : forall hdr b c, va_fingerprint_from b = VOk c -> av_dec_kind AvkFp hdr b = VOk (AvFp c).
+Proof. exact va_fingerprint_codec. Qed.
+Print Assumptions C19_fingerprint_codec.
+Theorem C19_no_panic_cookie_eq : forall b, len b = 4 -> va_cookie_eq b <> VPanic.
+Proof. exact va_cookie_eq_np. Qed.
+Print Assumptions C19_no_panic_cookie_eq.
+Theorem C19_no_panic_header_try_from : forall b, va_header_try_from b <> VPanic.
+Proof. exact va_header_try_from_np. Qed.
+Print Assumptions C19_no_panic_header_try_from.
+Theorem C19_header_agrees : forall b,
+  (forall t l x, va_header_try_from b = VOk (t, l, x) -> av_dec_header b = VOk x) /\
+  (forall x, av_dec_header b = VOk x -> exists t l, va_header_try_from b = VOk (t, l, x)).
+Proof. exact va_header_agrees. Qed.
+Print Assumptions C19_header_agrees.
+
+(* ---- string constructors and key derivations: for every byte string (a Rust &str is one of them) *)
+Theorem C19_no_panic_nonce_new : forall s, va_nonce_new s <> VPanic.
+Proof. exact va_nonce_new_np. Qed.
+Print Assumptions C19_no_panic_nonce_new.
+Theorem C19_nonce_new_len : forall s q, va_nonce_new s = VOk q -> len q <= 509.
+Proof. exact va_nonce_new_len. Qed.
+Print Assumptions C19_nonce_new_len.
+Theorem C19_no_panic_realm_new : forall s, va_realm_new s <> VPanic.
+Proof. exact va_realm_new_np. Qed.
+Print Assumptions C19_no_panic_realm_new.
+Theorem C19_text_new : forall max s, va_text_new max s = if len s <=? max then VOk s else VErr.
+Proof. exact va_text_new_spec. Qed.
+Print Assumptions C19_text_new.
+Theorem C19_no_panic_username_new : forall s, va_username_new s <> VPanic.
+Proof. exact va_username_new_np. Qed.
+Print Assumptions C19_no_panic_username_new.
+Theorem C19_username_new_wf : forall s, av_ascii_print s = true -> 0 < len s -> len s < 509 ->
+  va_username_new s = VOk s /\ av_wf 6 (AvUser s) = true.
+Proof. exact va_username_new_wf. Qed.
+Print Assumptions C19_username_new_wf.
+Theorem C19_userhash_new : forall n r,
+  va_userhash_new n r = vlet n' := av_precis n in vlet r' := av_precis r in VOk (sha256 (n' ++ [58] ++ r')).
+Proof. exact va_userhash_new_spec. Qed.
+Print Assumptions C19_userhash_new.
+Theorem C19_no_panic_userhash_new : forall n r, va_userhash_new n r <> VPanic.
+Proof. exact va_userhash_new_np. Qed.
+Print Assumptions C19_no_panic_userhash_new.
+Theorem C19_no_panic_key_short_term : forall p, va_key_short_term p <> VPanic.
+Proof. exact va_key_short_term_np. Qed.
+Print Assumptions C19_no_panic_key_short_term.
+Theorem C19_no_panic_key_long_term : forall u r p a, va_key_long_term u r p a <> VPanic.
+Proof. exact va_key_long_term_np. Qed.
+Print Assumptions C19_no_panic_key_long_term.
+Theorem C19_key_long_term_alg : forall u r p a k, va_key_long_term u r p a = VOk k -> (a = 1 /\ len k = 16) \/ (a = 2 /\ len k = 32).
+Proof. exact va_key_long_term_alg. Qed.
+Print Assumptions C19_key_long_term_alg.
+
+(* ---- nonce cookies (nonce_cookie.rs) *)
+Theorem C19_no_panic_security_features : forall s, va_security_features s <> VPanic.
+Proof. exact va_security_features_np. Qed.
+Print Assumptions C19_no_panic_security_features.
+Theorem C19_no_panic_new_nonce_cookie : forall value algs anon, va_new_nonce_cookie value algs anon <> VPanic.
+Proof. exact va_new_nonce_cookie_np. Qed.
+Print Assumptions C19_no_panic_new_nonce_cookie.
+(* whenever Nonce::new_nonce_cookie(value, flags) succeeds, the result is a nonce cookie whose features are `flags` *)
+Theorem C19_nonce_cookie_roundtrip : forall value algs anon q,
+  va_new_nonce_cookie value algs anon = VOk q -> va_is_nonce_cookie q = true /\ va_security_features q = VOk (algs, anon).
+Proof. exact va_nonce_cookie_roundtrip. Qed.
+Print Assumptions C19_nonce_cookie_roundtrip.
+(* D4: the pinned commit sliced the string; it panics exactly where `str::get` answers None and agrees everywhere else *)
+Theorem C19_security_features_d4 : forall s,
+  (va_is_nonce_cookie s = true /\ va_str_get s 9 13 = None /\ va_security_features_d4 s = VPanic /\ va_security_features s = VErr)
+  \/ va_security_features_d4 s = va_security_features s.
+Proof. exact va_security_features_d4_spec. Qed.
+Print Assumptions C19_security_features_d4.
+Example C19_nonce_slice_refuted :
+  let s := va_cookie_header ++ [97; 98; 99; 0xC3; 0x80; 0xC2; 0x80] in
+  va_nonce_new s = VOk s /\ va_security_features_d4 s = VPanic /\ va_security_features s = VErr.
+Proof. exact C19_nonce_slice_refuted_witness. Qed.
+
+(* ---- UnknownAttributes (add: idempotent, order-preserving, duplicate free; From<&[u16]>), PasswordAlgorithms *)
+Theorem C19_ua_add_idempotent : forall l x, va_ua_add (va_ua_add l x) x = va_ua_add l x.
+Proof. exact va_ua_add_idempotent. Qed.
+Print Assumptions C19_ua_add_idempotent.
+Theorem C19_ua_add_prefix : forall l x, exists t, va_ua_add l x = l ++ t /\ (t = [] \/ t = [x]).
+Proof. exact va_ua_add_prefix. Qed.
+Print Assumptions C19_ua_add_prefix.
+Theorem C19_ua_add_in : forall l x y, In y (va_ua_add l x) <-> In y l \/ y = x.
+Proof. exact va_ua_add_in. Qed.
+Print Assumptions C19_ua_add_in.
+Theorem C19_ua_add_nodup : forall l x, NoDup l -> NoDup (va_ua_add l x).
+Proof. exact va_ua_add_nodup. Qed.
+Print Assumptions C19_ua_add_nodup.
+Theorem C19_ua_from_nodup : forall v, NoDup (va_ua_from v).
+Proof. exact va_ua_from_nodup. Qed.
+Print Assumptions C19_ua_from_nodup.
+Theorem C19_ua_from_in : forall v y, In y (va_ua_from v) <-> In y v.
+Proof. exact va_ua_from_in. Qed.
+Print Assumptions C19_ua_from_in.
+Theorem C19_ua_from_id : forall v, NoDup v -> va_ua_from v = v.
+Proof. exact va_ua_from_id. Qed.
+Print Assumptions C19_ua_from_id.
+Theorem C19_ua_from_codec : forall hdr l, Forall (fun x => x < 65536) l ->
+  av_dec_kind AvkUAttrs hdr (flat_map av_be16 l) = VOk (AvUAttrs (va_ua_from l)).
+Proof. exact va_ua_from_codec. Qed.
+Print Assumptions C19_ua_from_codec.
+Theorem C19_ua_from_wf : forall l, Forall (fun x => x < 65536) l -> av_wf 0x000A (AvUAttrs (va_ua_from l)) = true.
+Proof. exact va_ua_from_wf. Qed.
+Print Assumptions C19_ua_from_wf.
+Theorem C19_pa_from_id : forall v, va_pa_from v = v.
+Proof. exact va_pa_from_id. Qed.
+Print Assumptions C19_pa_from_id.
+
+(* ---- the nonce-cookie reading used by the agent suite's byte <-> token glue (Agent/AbsGlue.nonce_features: C07, C08, C13)
+   is, on every str, is_nonce_cookie + security_features of the value-API model above *)
+From Rustun Require Import Agent.AbsGlue Proofs.ValueApiGlue.
+Theorem C19_nonce_features_agree : forall s, bytes_ok s = true -> av_utf8 s <> None ->
+  nonce_features s = if va_is_nonce_cookie s then Some (match va_security_features s with VOk f => Some f | _ => None end) else None.
+Proof. exact nonce_features_agree. Qed.
+Print Assumptions C19_nonce_features_agree.
